@@ -13,7 +13,9 @@ Open Scope N_scope.
    write a live segment file has received so far (hence every byte written for
    the acknowledged call) is in the synced content of a file that exists and
    whose directory entry is durable, no write is pending, every deletion is
-   durable, and the metadata db is complete, synced and durably named. *)
+   durable, and the metadata db is complete and durably named; it has no
+   unsynced page at the ACK of any call except StoreLogs (op_store), whose
+   return legitimately overlaps the background rotation's metadata commit. *)
 Theorem C07_discipline_sound : forall seg t1 op n t2,
   discipline seg (t1 ++ Mark MAck op n :: t2) = true ->
   let d := drun t1 d0 in
@@ -21,7 +23,7 @@ Theorem C07_discipline_sound : forall seg t1 op n t2,
      f_exists (segs d s) = true /\ In w (f_synced (segs d s)) /\
      f_pend (segs d s) = [] /\ f_dur (segs d s) = true) /\
   (forall s, f_dur (segs d s) = true -> f_exists (segs d s) = true) /\
-  m_pend d = false /\
+  (op <> op_store -> m_pend d = false) /\
   (meta d <> None -> meta d = Some true /\ m_dur d = true).
 Proof. exact discipline_sound. Qed.
 Print Assumptions C07_discipline_sound.
@@ -99,6 +101,17 @@ Example C07_ex_meta_dir_not_synced :
   discipline_res 4096 [OpenCreat MetaTmp; Pwrite MetaTmp 0 4096; Fdatasync MetaTmp; Close MetaTmp;
                        Rename MetaTmp Meta; Mark MAck 3 0]
   = Some (5%nat, VMetaDirNotSynced).
+Proof. vm_compute. reflexivity. Qed.
+(* the background rotation's metadata commit may overlap the ACK of the
+   StoreLogs that sealed the segment, but not the ACK of any other call *)
+Example C07_ex_rotation_overlaps_store_ack :
+  discipline_res 4096 (pre ++ [Mark MCall 1 1; Pwrite (Seg 0) 0 64; Fsync (Seg 0); FsyncDir;
+                               Pwrite Meta 8192 4096; Mark MAck 1 1; Fdatasync Meta;
+                               Mark MCall 5 2; Mark MAck 5 2]) = None.
+Proof. vm_compute. reflexivity. Qed.
+Example C07_ex_meta_not_synced :
+  discipline_res 4096 (pre ++ [Mark MCall 2 1; Pwrite Meta 8192 4096; Mark MAck 2 1])
+  = Some (12%nat, VMetaNotSynced).
 Proof. vm_compute. reflexivity. Qed.
 (* and the semantics really distinguishes: in the D1 trace the acked write is
    synced but the file's directory entry is not durable *)
